@@ -476,4 +476,195 @@ func (engine) Describe() batch.Description {
 	}
 }
 
-func main() { batch.Main(engine{}) }
+// ---------------------------------------------------------------------------
+// enumeration: every crash point of a linter run, every truncation length
+// class of every cache file it leaves
+
+type enumEngine struct {
+	cases []Case
+}
+
+func (e *enumEngine) Name() string     { return "cachesim2-enum" }
+func (e *enumEngine) Property() string { return "C05" }
+
+func enumModules(tier string) []*genmod.Mod {
+	var out []*genmod.Mod
+	n := 2
+	if tier == "thorough" {
+		n = 4
+	}
+	for i := 0; i < n; i++ {
+		r := genmod.Rng(1000 + i)
+		m := genmod.Generate(&r, 2+i%2, "chain", false)
+		// make sure facts flow and problems exist
+		for j := range m.Pkgs {
+			m.Pkgs[j].DepFunc, m.Pkgs[j].DepMethod, m.Pkgs[j].Pure, m.Pkgs[j].NonNil = 1, 1, true, true
+			m.Pkgs[j].Local |= genmod.LSelfAssign
+			m.Pkgs[j].RangeInt = false
+		}
+		m.Path = fmt.Sprintf("example.com/enum%d", i)
+		out = append(out, m)
+	}
+	return out
+}
+
+func (e *enumEngine) build(tier string) {
+	if e.cases != nil {
+		return
+	}
+	flags := []string{"-checks", "all", "-tests=false"}
+	readers := []Proc{{Kind: "lint"}, {Kind: "lint", Patterns: []int{1}}}
+	for _, m := range enumModules(tier) {
+		base := Case{Mod: *m, Flags: flags, Phases: []Phase{
+			{Procs: []Proc{{Kind: "lint"}}, Strategy: int(verifsim.StratFIFO), Workers: 2},
+			{Procs: readers[:1], Strategy: int(verifsim.StratFIFO), Workers: 2},
+			{Procs: readers[1:], Strategy: int(verifsim.StratFIFO), Workers: 2},
+		}}
+		e.cases = append(e.cases, base)
+		// learn the writer's file system operations and the files it leaves
+		ops, files := dryRun(base)
+		for _, rec := range ops {
+			c := base
+			c.Phases = append([]Phase(nil), base.Phases...)
+			ph := c.Phases[0]
+			ph.Faults = []verifsim.Fault{{Kind: "crash", Proc: 1, Op: rec.Op}}
+			c.Phases[0] = ph
+			e.cases = append(e.cases, c)
+			if rec.Kind == "write" {
+				ks := []int{0, 1, rec.Len / 2, rec.Len - 1}
+				if tier == "thorough" {
+					for k := 2; k < rec.Len; k += 1 + rec.Len/23 {
+						ks = append(ks, k)
+					}
+				}
+				seen := map[int]bool{}
+				for _, k := range ks {
+					if k < 0 || k > rec.Len || seen[k] {
+						continue
+					}
+					seen[k] = true
+					c := base
+					c.Phases = append([]Phase(nil), base.Phases...)
+					ph := c.Phases[0]
+					ph.Faults = []verifsim.Fault{{Kind: "crash_write", Proc: 1, Op: rec.Op, Arg: int64(k)}}
+					c.Phases[0] = ph
+					e.cases = append(e.cases, c)
+				}
+			}
+		}
+		for fi, f := range files {
+			lens := []int{0, 1, f.Size / 2, f.Size - 1}
+			if tier == "thorough" {
+				for k := 2; k < f.Size; k += 1 + f.Size/17 {
+					lens = append(lens, k)
+				}
+			}
+			seen := map[int]bool{}
+			for _, l := range lens {
+				if l < 0 || l >= f.Size || seen[l] {
+					continue
+				}
+				seen[l] = true
+				c := base
+				c.Phases = append([]Phase(nil), base.Phases...)
+				ph := c.Phases[0]
+				ph.After = []Env{{K: "trunc", File: fi, Pm: 0, Minus: -l}}
+				c.Phases[0] = ph
+				e.cases = append(e.cases, c)
+			}
+			c := base
+			c.Phases = append([]Phase(nil), base.Phases...)
+			ph := c.Phases[0]
+			ph.After = []Env{{K: "remove", File: fi}}
+			c.Phases[0] = ph
+			e.cases = append(e.cases, c)
+		}
+	}
+}
+
+// dryRun executes the first phase of a case fault-free and returns the
+// linter's file system operations and the cache files it leaves.
+func dryRun(c Case) ([]simos.OpRec, []simos.Entry) {
+	dir := batch.ModDir("cachesim2", c.Mod.Digest())
+	defer batch.LockModDir(dir)()
+	if err := c.Mod.Write(dir); err != nil {
+		return nil, nil
+	}
+	defer os.RemoveAll(dir)
+	defer verifhook.Forget()
+	verifhook.State = c.Mod.Digest()
+	args := append([]string{"-f", "json"}, c.Flags...)
+	args = append(args, "./...")
+	var s simlint.Session
+	var out simlint.Out
+	var fs *simos.FS
+	verifsim.Run(verifsim.Config{Strategy: verifsim.StratFIFO, Procs: 2, StepBound: 5_000_000}, func() {
+		fs = s.Disk(nil)
+		fs.LogOps = true
+		p := s.Start("lint", simlint.Inv{Args: args, Dir: dir}, &out)
+		s.Finish(p, &out)
+	})
+	var ops []simos.OpRec
+	for _, r := range fs.Log {
+		if r.Proc == 1 {
+			ops = append(ops, r)
+		}
+	}
+	var files []simos.Entry
+	for _, e := range fs.Walk() {
+		if !strings.Contains(e.Path, "/.tmp/") {
+			files = append(files, e)
+		}
+	}
+	return ops, files
+}
+
+func (e *enumEngine) Total(tier string) int {
+	e.build(tier)
+	return len(e.cases)
+}
+
+func (e *enumEngine) Generate(seed uint64, index int, tier string) json.RawMessage {
+	e.build(tier)
+	b, _ := json.Marshal(e.cases[index%len(e.cases)])
+	return b
+}
+
+func (e *enumEngine) Execute(raw json.RawMessage) batch.Result {
+	var c Case
+	if err := json.Unmarshal(raw, &c); err != nil {
+		return batch.Result{Infra: err.Error()}
+	}
+	r := execute(c, nil)
+	r.Trivial = false
+	return r
+}
+
+func (e *enumEngine) Minimize(raw json.RawMessage, still func(json.RawMessage) bool) json.RawMessage {
+	return raw // enumerated cases are minimal by construction
+}
+
+func (e *enumEngine) Describe() batch.Description {
+	d := engine{}.Describe()
+	d.Rule = "enumeration, not sampling: for each of 2 (thorough 4) small modules with facts flowing through imports, a complete linter process (FIFO schedule) is killed before EVERY file-system call it makes and inside every write after k bytes (k in {0,1,len/2,len-1}; thorough adds ~23 more prefixes per write), and every cache file a fault-free run leaves is truncated to {0,1,len/2,len-1} (thorough: ~17 more lengths) or removed; afterwards a linter naming ./... and then a linter naming only the importing package (its dependency analysed for facts only) run on the surviving cache and must print what a run without cache history prints. Each case is distinct by construction."
+	return d
+}
+
+func main() {
+	fam := ""
+	var rest []string
+	for _, a := range os.Args[1:] {
+		if strings.HasPrefix(a, "-family=") {
+			fam = a[len("-family="):]
+			batch.ExtraWorkerArgs = append(batch.ExtraWorkerArgs, a)
+		} else {
+			rest = append(rest, a)
+		}
+	}
+	os.Args = append(os.Args[:1], rest...)
+	if fam == "enum" {
+		batch.Main(&enumEngine{})
+		return
+	}
+	batch.Main(engine{})
+}
